@@ -16,7 +16,9 @@ COQ = os.path.join(VERIF, "coq")
 REPO = os.environ.get("PLOTINK_REPO", "/repo")
 NPROC = min(16, os.cpu_count() or 4)
 
-FORBIDDEN = re.compile(r"\b(Admitted|admit|Axiom|Axioms|Parameter|Parameters|Conjecture|Conjectures|Hypothesis|Variable|Variables|Hypotheses)\b|Unset\s+Guard|bypass_check|type-in-type|impredicative-set|Admit\s+Obligations")
+FORBIDDEN = re.compile(r"\b(Admitted|admit|Axiom|Axioms|Parameter|Parameters|Conjecture|Conjectures|Hypothesis|Variable|Variables|Hypotheses)\b|Unset\s+Guard|bypass_check|type-in-type|impredicative-set|Admit\s+Obligations|Require\s+Import[^.]*\b(Psatz|Lra|Reals|Classical|ClassicalEpsilon|FunctionalExtensionality|ProofIrrelevance|JMeq)\b")
+# (the last alternative: libraries whose loading alone puts axioms into coqchk's context summary - the development is axiom-free and stays so;
+#  lra over Q comes from Lqa, lia / nia from Lia)
 
 # ---------------------------------------------------------------- Coq literals
 def cz(n):
